@@ -39,6 +39,8 @@ def reply_kinds(frame, good, rng):
         ks['truncated'] = [good[:max(1, len(good) - 1)]]
         ks['bad_echo'] = [good[:1] + bytes([good[1] ^ 0x01]) + good[2:]]
         ks['extended'] = [good + b'\x01']
+        ks['extended2'] = [good + b'\xf2\x01']              # room for an optional echo after the sub-function (a data identifier, a record)
+        ks['bad_echo_extended2'] = [good[:1] + bytes([good[1] ^ 0x02]) + good[2:] + b'\xf2\x01']
     return ks
 
 
@@ -63,8 +65,8 @@ def suite_call(ctx):
         frame = st['f']
         good = entries.good_reply(frame, c, client.config)
         kinds = reply_kinds(frame, good, rng)
-        names = sorted(kinds) if ctx.thorough else ['valid', 'negative', 'pending_negative', 'invalid7f', 'silence', 'negative_2020code@2006'] + rng.sample(
-            sorted(set(kinds) - {'valid', 'negative', 'pending_negative', 'invalid7f', 'silence', 'negative_2020code@2006'}), 3)
+        fixed = ['valid', 'negative', 'pending_negative', 'invalid7f', 'silence', 'negative_2020code@2006'] + [k for k in ('extended2', 'bad_echo_extended2') if k in kinds]
+        names = sorted(kinds) if ctx.thorough else fixed + rng.sample(sorted(set(kinds) - set(fixed)), 3)
         for kn in names:
             frames = kinds[kn]
             results = {}
